@@ -244,7 +244,7 @@ def run(ctx):
         max_subsets = ctx.pick(16, 64)
 
         def opts_fn(i, r):
-            return jsgen.Opts(clean=(i % 3 != 0), max_stmts=5)
+            return jsgen.Opts(clean=(i % 3 != 0), max_stmts=5, unicode_idents=(i % 4 == 1), string_continuations=(i % 2 == 0))
         progs = work.Programs(ctx, nprog, opts_fn=opts_fn, use_corpus=False, layouts=('space',))
         for text, meta in progs:
             toks = meta['toks']
